@@ -37,7 +37,16 @@ def main() -> int:
         mod = importlib.import_module(f"harness.props.{pid.lower()}")
         if a.replay:
             rep = json.loads(open(a.replay).read())
-            return mod.replay(ctx, rep)
+            if hasattr(mod, "replay"):
+                return mod.replay(ctx, rep)
+            # generic replay: re-run the check and report whether the recorded violation key is reproduced
+            with contextlib.redirect_stdout(sys.stderr):
+                mod.run(ctx)
+            hit = [v for v in ctx.violations if v.key == rep.get("key")]
+            print(f"REPLAY property={pid} key={rep.get('key')} reproduced={'yes' if hit else 'no'}")
+            if hit:
+                print(f"VIOLATION property={pid} replay={a.replay}")
+            return 1 if hit else 0
         with contextlib.redirect_stdout(sys.stderr):      # code under test may print; stdout carries verdict lines only
             mod.run(ctx)
         return finish(ctx, getattr(mod, "LEVEL", LEVEL[pid]))
